@@ -18,7 +18,13 @@
 (*                with a value that crashes its first user (a typed-nil configuration behind a    *)
 (*                non-nil interface, a nil entry in a map, ...).  A duty that consumed the input   *)
 (*                has not ended before every use was performed (or the decoder rejected it).      *)
-(* Actions: Call (the environment delivers an input), Decoded (Vouch's decoder accepted or        *)
+(*   AuxRequests(ep,s) the AUXILIARY requests the code may make on its own while it handles the     *)
+(*                input (the node version request behind a {{CLIENT}} graffiti marker), each with  *)
+(*                the answer the environment has chosen for it: a value, a late value, or one of    *)
+(*                the fault kinds (nil response with an error of a particular kind).  The main      *)
+(*                request of the duty and its auxiliary requests are answered independently.         *)
+(* Actions: Call (the environment delivers an input), Aux (the environment answers an auxiliary     *)
+(* request of the pending input), Decoded (Vouch's decoder accepted or        *)
 (* rejected it), Use (a consumer worked with what the decoder left behind and ended ok / error /   *)
 (* fallback), Return (the duty ends with an allowed outcome), Undeliverable, DecoderPanic.  The   *)
 (* trace vocabulary additionally has the event Crash (panic or                                    *)
@@ -35,7 +41,7 @@ CONSTANT EPs        \* the entry points explored by this configuration (subset o
 
 -----------------------------------------------------------------------------
 VARIABLES pending,   \* the input being processed: [ep, shape] or NoCall
-          progress,  \* how far the pending input got: [decoded, done]
+          progress,  \* how far the pending input got: [decoded, done, asked]
           last,      \* how the last duty ended (an outcome, "undeliverable", or "none")
           alive      \* the process keeps running
 
@@ -43,7 +49,7 @@ vars == <<pending, progress, last, alive>>
 
 NoCall == [ep |-> "none"]
 NoOutcome == "none"
-NoProgress == [decoded |-> "na", done |-> {}]
+NoProgress == [decoded |-> "na", done |-> {}, asked |-> {}]
 
 Init == pending = NoCall /\ progress = NoProgress /\ last = NoOutcome /\ alive = TRUE
 
@@ -52,8 +58,18 @@ Call(ep, s) ==
     /\ pending = NoCall
     /\ ep \in EPs /\ s \in Shapes(ep)
     /\ pending' = [ep |-> ep, shape |-> s]
-    /\ progress' = [decoded |-> IF Decides(ep) THEN "unknown" ELSE "na", done |-> {}]
+    /\ progress' = [decoded |-> IF Decides(ep) THEN "unknown" ELSE "na", done |-> {}, asked |-> {}]
     /\ UNCHANGED <<last, alive>>
+
+(* The code made an auxiliary request (any number of times, at any moment before the duty ends: before,  *)
+(* between or after the main requests, from the calling goroutine or from one it started) and the          *)
+(* environment gave the answer it had chosen for it - a value or a fault.  Nothing else changes: whatever    *)
+(* the answer, the duty goes on to one of its allowed ends.                                                  *)
+Aux(a) ==
+    /\ pending # NoCall
+    /\ a \in AuxRequests(pending.ep, pending.shape)
+    /\ progress' = [progress EXCEPT !.asked = @ \cup {a}]
+    /\ UNCHANGED <<pending, last, alive>>
 
 (* Vouch's decoder returned: it accepted the input (a value was handed to the caller without an       *)
 (* error) or rejected it.                                                                              *)
@@ -110,6 +126,7 @@ DecoderPanic ==
 Next ==
     \/ \E ep \in EPs : \E s \in Shapes(ep) : Call(ep, s)
     \/ \E a \in BOOLEAN : Decoded(a)
+    \/ \E a \in AuxUniverse : Aux(a)
     \/ \E u \in UseNames : \E o \in Outcomes : Use(u, o)
     \/ \E o \in Outcomes : Return(o)
     \/ Undeliverable
@@ -123,6 +140,7 @@ TypeOK ==
     /\ pending = NoCall \/ (pending.ep \in EPs /\ pending.shape \in Shapes(pending.ep))
     /\ progress.decoded \in {"na", "unknown", "accepted", "rejected"}
     /\ progress.done \subseteq UseNames
+    /\ progress.asked \subseteq AuxUniverse
     /\ pending = NoCall => progress = NoProgress
     /\ last \in Outcomes \cup {"none", "undeliverable"}
 
@@ -131,6 +149,13 @@ KeepsRunning == alive
 
 \* C16: every duty that consumed outside data ended with ok / error / fallback
 EndsProperly == last \in Outcomes \cup {"none", "undeliverable"}
+
+\* C16 for the auxiliary requests: whatever was answered to them - a fault of any kind included - the
+\* process keeps running, and only answers of the environment's alphabet for THIS input were given
+AuxFaultsSurvived ==
+    pending # NoCall =>
+        /\ progress.asked \subseteq AuxRequests(pending.ep, pending.shape)
+        /\ ((\E a \in progress.asked : a.answer \in AuxFaults) => alive)
 
 \* decode AND use: nothing is used that the decoder rejected, and only consumers of the entry point run
 UsedOnlyIfDecoded ==
